@@ -318,11 +318,37 @@ def early_date(v):
     return any(isinstance(x, datetime.date) and x.year < 1000 for x in walk(v))
 
 
+def oid_newline(i):
+    """24 lower-case hex digits and a newline: the regex of _id_to_db matches, bson.ObjectId refuses"""
+    return isinstance(i, str) and len(i) == 25 and i[24] == '\n' and all(c in '0123456789abcdef' for c in i[:24])
+
+
+def _ids_of(op):
+    kind = op[0]
+    out = []
+    if kind in ('insert', 'replace'):
+        rec = op[2] if kind == 'insert' else op[3]
+        out.append(rec.get('id'))
+        if kind == 'replace':
+            out.append(op[2])
+    filt = _filter_of(op)
+    if filt is not None and 'id' in filt:
+        c = filt['id']
+        if isinstance(c, dict):
+            for w in c.values():
+                out += w if isinstance(w, list) else [w]
+        else:
+            out.append(c)
+    return out
+
+
 def mongo_class(op, ref):
     """The recorded engine-inherent deviation class of the Mongo driver this op falls into, or None."""
     kind = op[0]
     if kind == 'reload':
         return None
+    if any(oid_newline(i) for i in _ids_of(op)):
+        return 'C06-mongo-id-newline'
     pay = _payload(op)
     if any(not (INT64[0] <= i <= INT64[1]) for p in pay for i in _ints(p)):
         return 'C06-mongo-int64'
@@ -409,12 +435,15 @@ class C06(Prop):
             '3 collections; records = typed index fields (numeric incl. floats and bools, strings with quotes, backslashes, '
             'control and non-ASCII/astral chars, nullable, sometimes missing) + payload fields with arbitrary nested JSON '
             'values (big ints, float boundary values, dates/datetimes, odd key names); custom (numeric and non-numeric) and '
-            'generated ids; filters eq / gt / ge / lt / le / in incl. by id and id-in; 0..3 sort keys with ties, limit, '
+            'generated ids, explicit ids that look like generated ones or like key syntax (24-hex in lower/upper/mixed case, 23/25 chars, '
+            'numerals around the counters, ids differing in case, with : . -) and follow-up ops under another spelling; '
+            'filters eq / gt / ge / lt / le / in incl. by id and id-in; 0..3 sort keys with ties, limit, '
             'projection; every sequence runs on JSON(memory), JSON(file, re-opened), persist API over JSON, Redis(fakeredis), '
             'Mongo(mongomock); plus codec cases (value lists through utils.json dumps/loads). A case is non-trivial when '
             'it has a query returning records after at least one mutation; distinct = distinct observed result lists')
     CORRESPONDENCE = ('Ref.step <-> plain Python reference store; Json.step <-> JSONDriver.{query,insert,update,replace,remove}; '
-                      'Redis.step <-> RedisDriver.{…}; Api.replace <-> persist.replace; encodeVal/decodeVal <-> utils.json.dumps/loads')
+                      'Redis.step <-> RedisDriver.{…}; Api.replace <-> persist.replace; encodeVal/decodeVal <-> utils.json.dumps/loads; '
+                      'Mongo.idToDb/idFromDb <-> MongoDriver._id_to_db/_id_from_db')
     TRUSTED = ['fakeredis / mongomock stand in for the servers; the Mongo driver has no Lean model (checked against the '
                'reference store only, outside the recorded engine-inherent classes)',
                'CPython json, float repr/parse, datetime strftime/strptime are environment (FloatText parameter of the model)',
@@ -606,6 +635,8 @@ class C06(Prop):
     def run_case(self, case, driver):
         if case.get('kind') == 'codec':
             return self._run_codec(case, driver)
+        if case.get('kind') == 'ids':
+            return self._run_ids(case, driver)
         tags = set()
         w = self.wire
         probe = case.get('probe')                 # corpus witnesses of recorded findings: do not skip that class
@@ -868,6 +899,43 @@ class C06(Prop):
                 fail = fail or Failure('correspondence', f'the code reads the model\'s text {mt[1]!r} of {v!r} as {rb!r}',
                                        real=self._j(rb), model=mt[1], where='encodeVal')
         key = repr(case['values'])[:400] if len(vals) > 1 else None
+        return fail, {'tags': sorted(tags), 'key': key, 'observed': obs}
+
+    # ---------------------------------------------------------------- identifier cases (MongoDriver._id_to_db / _id_from_db)
+    def _run_ids(self, case, driver):
+        w = self.wire
+        to_db = getattr(self.mdrv.MongoDriver, '_id_to_db', None)
+        from_db = getattr(self.mdrv.MongoDriver, '_id_from_db', None)
+        tags, obs, fail = set(), [], None
+        if to_db is None or from_db is None:
+            return None, {'tags': ['ids:unobserved'], 'key': None, 'observed': None}
+        probe = case.get('probe')
+        for s in case['ids']:
+            if oid_newline(s) and probe != 'C06-mongo-id-newline':
+                tags.add('skip:C06-mongo-id-newline')
+                continue
+            try:
+                d = to_db(s)
+                back = from_db(d)
+                real = ('o', list(d.binary), back) if hasattr(d, 'binary') else ('s', None, back)
+            except Exception as e:  # noqa
+                real = ('exc', type(e).__name__, None)
+            tags.add('ids:' + real[0])
+            obs.append(real[0])
+            if real[0] == 'exc' or real[2] != s or not isinstance(real[2], str):
+                fail = fail or Failure('property', f'the Mongo driver hands the id {s!r} to the engine and reads it back as '
+                                       f'{real[2]!r}' + (f' ({real[1]})' if real[0] == 'exc' else ''), real=self._j(real),
+                                       where='C06-mongo-id-newline' if oid_newline(s) else 'mongo-id')
+                continue
+            rep = driver.ask('idx S' + cps(s)).split(' ')
+            if rep[0] == 'err':
+                model = ('exc', None, None)
+            else:
+                model = (rep[1], [int(x) for x in rep[2].split(',')] if rep[1] == 'o' else None, w.s(rep[3]))
+            if model != real:
+                fail = fail or Failure('correspondence', f'Mongo.idToDb/idFromDb on {s!r}: model {model!r}, code {real!r}',
+                                       real=self._j(real), model=self._j(model), where='Mongo.idToDb')
+        key = repr(sorted(set(obs))) + str(len(case['ids'])) if len(set(case['ids'])) > 2 else None
         return fail, {'tags': sorted(tags), 'key': key, 'observed': obs}
 
     # ---------------------------------------------------------------- known findings
